@@ -72,6 +72,36 @@ func GenC10(verifSeed uint64, run int) *Scenario {
 			plan.Cases = append(plan.Cases, Case{Format: f, Class: "passphrase", Invalid: "missing", Env: map[string]string{"SOURCE_DATE_EPOCH": w.Env["SOURCE_DATE_EPOCH"]}})
 		}
 	}
+	// key rotation: the key file is replaced in place by another key (same
+	// path, same modification time, same passphrase); the next package is
+	// signed by the key that is in the file when it is built, and after the
+	// file is put back, by the first key again
+	keyRefOf := map[string]string{}
+	for _, e := range w.Tree {
+		if e.KeyRef != "" {
+			keyRefOf[e.Path] = e.KeyRef
+		}
+	}
+	dropKeyID := variant(func(m map[string]any) {
+		for _, f := range []string{"deb", "rpm"} {
+			delete(subMap(subMap(m, f), "signature"), "key_id")
+		}
+	})
+	for _, f := range []string{"deb", "rpm", "apk"} {
+		old := keyRefOf[keyPath[f]]
+		repl := map[string]string{
+			"pgp_a.asc": "pgp_e.asc", "pgp_a.gpg": "pgp_e.asc", "pgp_b.asc": "pgp_c.asc", "pgp_b.gpg": "pgp_c.gpg", "pgp_c.asc": "pgp_b.asc", "pgp_c.gpg": "pgp_b.gpg",
+			"rsa_a.priv": "rsa_b.priv", "rsa_a.pkcs8.priv": "rsa_b.priv", "rsa_a.enc.priv": "rsa_b.enc.priv",
+		}[old]
+		if repl == "" {
+			continue
+		}
+		newKey := strings.SplitN(repl, ".", 2)[0]
+		plan.Cases = append(plan.Cases,
+			Case{Format: f, Class: "clean", Config: dropKeyID},
+			Case{Format: f, Class: "clean", Key: newKey, Config: dropKeyID, FS: &FSFault{Path: keyPath[f], Kind: "replace", KeyRef: repl}},
+			Case{Format: f, Class: "clean", Config: dropKeyID})
+	}
 	// invalid deb signature type (debsign method)
 	for _, sign := range []string{"", "callback"} {
 		plan.Cases = append(plan.Cases, Case{Format: "deb", Sign: sign, Class: "sigtype", Invalid: "bogus", Config: variant(func(m map[string]any) {
@@ -168,6 +198,22 @@ func GenC10(verifSeed uint64, run int) *Scenario {
 			subMap(subMap(m, "apk"), "signature")["key_file"] = "@SRC@keys/m-" + rkk
 		})})
 	}
+	// recovery: right after every build that is made to fail, a fault-free
+	// signed build of the same format (alternating between the configured key
+	// file and the callback) - what a failed build leaves behind in the process
+	// must not reach the next package
+	var withRecovery []Case
+	for i, c := range plan.Cases {
+		withRecovery = append(withRecovery, c)
+		if c.Class != "clean" {
+			r := Case{Format: c.Format, Class: "clean"}
+			if i%2 == 0 {
+				r.Sign = "callback"
+			}
+			withRecovery = append(withRecovery, r)
+		}
+	}
+	plan.Cases = withRecovery
 	plan.Sweep = g.Bool(0.2)
 	return &Scenario{Property: "C10", VerifSeed: verifSeed, Run: run, RunSeed: seed, World: w, C10: plan}
 }
@@ -219,7 +265,7 @@ func apkKeyNameOf(cfgText string) string {
 
 // verifySigned checks the fault-free clauses for one built package. calls are
 // the byte strings the simulated signer was handed (nil on the key-file path).
-func verifySigned(w *World, cfgText, format string, pkg []byte, calls [][]byte, pubPGP string) (problems []string, verified int) {
+func verifySigned(w *World, cfgText, format string, pkg []byte, calls [][]byte, pubPGP, pubRSA string) (problems []string, verified int) {
 	fail := func(f string, a ...any) { problems = append(problems, fmt.Sprintf(f, a...)) }
 	keyring, err := loadPGPPublic(pubPGP)
 	if err != nil {
@@ -393,7 +439,7 @@ func verifySigned(w *World, cfgText, format string, pkg []byte, calls [][]byte, 
 		if es[0].Name != ".SIGN.RSA."+wantName {
 			fail("apk signature entry is %q, want .SIGN.RSA.%s as the first member", es[0].Name, wantName)
 		}
-		pub, err := loadRSAPublic("rsa_a.pub")
+		pub, err := loadRSAPublic(pubRSA)
 		if err != nil {
 			return []string{"harness: cannot load rsa public key: " + err.Error()}, 0
 		}
@@ -539,6 +585,10 @@ func RunC10(rt *Runtime, sc *Scenario) RunResult {
 			if strings.HasPrefix(c.Key, "pgp_") {
 				pub = c.Key + ".pub.asc"
 			}
+			pubRSA := "rsa_a.pub"
+			if strings.HasPrefix(c.Key, "rsa_b") {
+				pubRSA = "rsa_b.pub"
+			}
 			var calls [][]byte
 			if c.Sign == "callback" {
 				pub = "pgp_a.pub.asc"
@@ -547,7 +597,7 @@ func RunC10(rt *Runtime, sc *Scenario) RunResult {
 					calls = [][]byte{}
 				}
 			}
-			problems, verified := verifySigned(w, cfgText, c.Format, out.Res.Bytes, calls, pub)
+			problems, verified := verifySigned(w, cfgText, c.Format, out.Res.Bytes, calls, pub, pubRSA)
 			res.Counters["signatures_verified"] += int64(verified)
 			if verified > 0 {
 				res.Counters["probe.verified."+c.Format+"."+path]++
@@ -626,7 +676,7 @@ func RunC10(rt *Runtime, sc *Scenario) RunResult {
 					continue
 				}
 				cfgText := padDescription(w.Config, k)
-				problems, verified := verifySigned(w, cfgText, sw.f, out.Res.Bytes, out.Signer.Calls, "pgp_a.pub.asc")
+				problems, verified := verifySigned(w, cfgText, sw.f, out.Res.Bytes, out.Signer.Calls, "pgp_a.pub.asc", "rsa_a.pub")
 				res.Counters["signatures_verified"] += int64(verified)
 				res.Counters["probe.sweep_builds."+sw.f]++
 				for _, p := range problems {
